@@ -2,12 +2,13 @@
 // overlay.json for `go build -overlay`. The repository itself is never modified.
 //
 // Rewrites (all additive and keyed on syntax/type facts, never on line numbers):
-//   fuel      verifrt.Enter()/Leave() at the top of evaluator.Eval, verifrt.Tick() in every loop body
-//             of packages evaluator, props, object, di
-//   maporder  `for k, v := range M` over a map  ->  ordered walk over verifrt.Keys(site, M)
-//   sync      import "sync" -> verifrt/vsync
-//   access    verifrt.Access(name, write) before statements touching package-level maps of package object
-//   export    extra files exporting what the harness needs (symbol tables, readNativeCode, Ident order)
+//
+//	fuel      verifrt.Enter()/Leave() at the top of evaluator.Eval, verifrt.Tick() in every loop body
+//	          of packages evaluator, props, object, di
+//	maporder  `for k, v := range M` over a map  ->  ordered walk over verifrt.Keys(site, M)
+//	sync      import "sync" -> verifrt/vsync
+//	access    verifrt.Access(name, write) before statements touching package-level maps of package object
+//	export    extra files exporting what the harness needs (symbol tables, readNativeCode, Ident order)
 package main
 
 import (
